@@ -190,6 +190,7 @@ class Scheduler:
         if buffer_capacity and cluster_capacity:
             # Only an observation that is going ahead reserves ingest machines
             self.provision_ingest += pipeline_demand
+            self.buffer.admit_observation(observation)
             self._pending_ingest = (self.env.now,
                                     pending_demand + pipeline_demand)
             return True
